@@ -112,8 +112,10 @@ def _run_sym(unit, out, obligation_timeout_ms):
           if kind == "exc":
             # the clause itself raised on this path: counts as not established
             if s2.feasible(True):
-              I.obligations.append(_mk_ob(I, "post." + cname, "post", "refuted", s2,
-                                          detail="clause raised %r" % (r2,)))
+              st_ = "unknown" if _contract_misfit(r2) else "refuted"
+              I.obligations.append(_mk_ob(I, "post." + cname, "post", st_, s2,
+                                          detail=("contract does not fit this code: " if st_ == "unknown" else "")
+                                          + "clause raised %r" % (r2,)))
             continue
           tv = []
           I.truth(r2, s2, ectx, lambda s3, t: tv.append((s3, t)))
@@ -130,6 +132,8 @@ def _run_sym(unit, out, obligation_timeout_ms):
       if allowed is None:
         r, m = s.check([], what=name, want_model=True)
         status = {"sat": "refuted", "unsat": "proved", "unknown": "unknown"}[r]
+        if status == "refuted" and _contract_misfit(e):
+          status = "unknown"      # the contract's own code could not be evaluated on this code: undecided, not a defect
         ob = _mk_ob(I, name, "exc", status, s, model=m, detail=repr(e))
         I.obligations.append(ob)
       elif allowed is True:
@@ -201,6 +205,14 @@ def _mk_ob(I, name, kind, status, st, model=None, detail=None):
   from .interp import Obligation
   ob = Obligation(name, kind, status, detail=detail, model=model)
   return ob
+
+
+def _contract_misfit(e):
+  """an AttributeError / NameError raised by the CONTRACT's own code (site in contracts.* / spec.*): the contract reads an
+  attribute or name the code under contract does not have (a renamed field, a changed result shape).  Nothing is shown
+  wrong about the property: the obligation is undecided (exit 2), never a violation."""
+  where = getattr(e, "where", None) or ""
+  return getattr(e, "cls", None) in (AttributeError, NameError) and (where.startswith("contracts.") or where.startswith("spec."))
 
 
 def run_unit_symbolic(prop, unit_name, obligation_timeout_ms=20000):
